@@ -29,7 +29,12 @@ Open Scope N_scope.
 Inductive rec :=
 | REnt (i : N)                (* entryType *)
 | RState (c : N)              (* stateType: hard state, only the commit index is followed *)
-| RSnap (i : N).              (* snapshotType: marker of the raft snapshot at index i *)
+| RSnap (i : N)               (* snapshotType: marker of the raft snapshot at index i (written by a local snapshot) *)
+| RSnapIn (v : bool) (h i : N).
+    (* snapshotType written by persistRaftState for an INCOMING snapshot i (a follower that is behind the leader's
+       compacted log). The code does not distinguish it from RSnap: every function the restart uses treats it as the
+       marker of i. v and h are ghost fields for the proofs: h = the last log index when it was written, v = the hard
+       state with commit >= i that makes the marker valid has been saved behind it (until then a restart ignores it) *)
 
 Record seg := mkSeg { sfirst : N; srecs : list rec }.   (* <seq>-<sfirst>.wal *)
 
@@ -85,16 +90,26 @@ Fixpoint drop_tail (ss : list seg) (j : nat) : list seg :=
   end.
 
 Definition markers (rs : list rec) : list N :=
-  flat_map (fun r => match r with RSnap i => [i] | _ => [] end) rs.
+  flat_map (fun r => match r with RSnap i => [i] | RSnapIn _ _ i => [i] | _ => [] end) rs.
+
+(* the incoming markers that were never made valid (a crash between the record and its hard state) *)
+Definition unvalidated (rs : list rec) : list N :=
+  flat_map (fun r => match r with RSnapIn false _ i => [i] | _ => [] end) rs.
+
+(* proof-level views (not used by any step): the markers without the incoming ones that were never made valid, and
+   the log indices the WAL accounts for (an incoming snapshot that became valid stands for the indices h+1 .. i) *)
+Definition pmarkers (rs : list rec) : list N :=
+  flat_map (fun r => match r with RSnap i => [i] | RSnapIn true _ i => [i] | _ => [] end) rs.
 
 Definition entries (rs : list rec) : list N :=
-  flat_map (fun r => match r with REnt i => [i] | _ => [] end) rs.
+  flat_map (fun r => match r with REnt i => [i] | RSnapIn true h i => seqN (h + 1) (N.to_nat (i - h)) | _ => [] end) rs.
 
 Definition last_commit (rs : list rec) : N :=
   fold_left (fun acc r => match r with RState c => c | _ => acc end) rs 0.
 
+(* WAL.enti: the index of the last entry saved; SaveSnapshot raises it to the snapshot index when that is ahead *)
 Definition last_entry (rs : list rec) : N :=
-  fold_left (fun acc r => match r with REnt i => i | _ => acc end) rs 0.
+  fold_left (fun acc r => match r with REnt i => i | RSnapIn _ _ i => N.max acc i | _ => acc end) rs 0.
 
 Definition memN (x : N) (l : list N) : bool := existsb (N.eqb x) l.
 
@@ -146,9 +161,9 @@ Definition read_step (i : N) (acc : result readst) (r : rec) : result readst :=
         let up := N.to_nat (e - i - 1) in
         if Nat.ltb (length (rd_ents st)) up then Err E_OUT_OF_RANGE
         else Ok (mkReadst (firstn up (rd_ents st) ++ [e]) (rd_commit st) (rd_match st))
-      else Ok st
+      else Ok (mkReadst [] (rd_commit st) (rd_match st))   (* an entry at or before i written after later ones: they are stale *)
     | RState c => Ok (mkReadst (rd_ents st) c (rd_match st))
-    | RSnap m => if m =? i then Ok (mkReadst (rd_ents st) (rd_commit st) true) else Ok st
+    | RSnap m | RSnapIn _ _ m => if m =? i then Ok (mkReadst (rd_ents st) (rd_commit st) true) else Ok st
     end
   end.
 
@@ -227,17 +242,22 @@ Definition recover (ss : list seg) (snapfiles : list N) (cks : list (N * option 
 Record ready := mkReady {
   r_n : N; r_first : N; r_last : N;          (* rd.Entries *)
   r_hs : bool; r_tv : bool; r_commit : N;    (* rd.HardState non-empty / its term or vote differs from WAL.state / Commit *)
-  r_cn : N; r_cfirst : N; r_clast : N        (* rd.CommittedEntries *)
+  r_cn : N; r_cfirst : N; r_clast : N;       (* rd.CommittedEntries *)
+  r_snap : N                                 (* rd.Snapshot.Metadata.Index (0 = no snapshot in this Ready) *)
 }.
 
-Record batch := mkBatch { b_first : N; b_last : N; b_n : N }.
+Record batch := mkBatch { b_first : N; b_last : N; b_n : N; b_snap : N }.
 
 Inductive rd_pc :=
 | RdIdle
 | RdBegun (r : ready) (sv pb : bool)          (* the Ready's records are saved / its committed entries are published *)
 | RdSaving (r : ready) (pb apd : bool)         (* inside wal.Save; apd: the records are encoded already (a cut is going on) *)
 | RdCutting (r : ready) (pb : bool) (idx : N)
-| RdAppended (r : ready).
+| RdAppended (r : ready)
+(* a Ready that carries an incoming snapshot *)
+| RdSnapSaving (r : ready) (fl : bool)       (* inside SaveSnap (persistRaftState); fl: the snap file is written *)
+| RdSnapSaved (r : ready)                    (* snap file and WAL record written, the hard state not yet *)
+| RdSnapApply (r : ready) (k : nat).         (* after the save: 0 raftDone signalled, 1 ApplySnapshot done, 2 WAL released *)
 
 Inductive ap_pc :=
 | ApIdle
@@ -247,7 +267,11 @@ Inductive ap_pc :=
 | ApTrigger
 | ApFlushed                 (* Backup() has flushed the write-back cache *)
 | ApTriggered (i : N)
-| ApTriggerDone.
+| ApTriggerDone
+(* applySnapshot (incoming snapshot i) *)
+| ApSnapPrepare (i : N)       (* inside PrepareSnapshot: the checkpoint of i is looked for / fetched *)
+| ApSnapPrepared (i : N)      (* the transfer result is handed to the raft loop; waiting for raftDone *)
+| ApSnapRestoring (i : N).    (* raft has persisted the snapshot; inside RestoreFromSnapshot *)
 
 Inductive sn_pc := SnStarted | SnCkDone | SnCreated | SnFile | SnMarked | SnSynced | SnReleased | SnUpdated.
 
@@ -339,9 +363,9 @@ Inductive event :=
 | EvRdBegin (r : ready)                          (* rd.begin *)
 | EvRdSaveBefore | EvRdSaveAfter                 (* rd.walsave.before / after *)
 | EvCutBefore (idx : N) | EvCutAfter (idx : N)   (* wl.cut.rename.before / wl.cut.after *)
-| EvRdPublish (n last : N)                       (* rd.publish.before *)
+| EvRdPublish (n last sn : N)                    (* rd.publish.before *)
 | EvRdAppendAfter | EvRdAdvance                  (* rd.append.after / rd.advance.before *)
-| EvApBefore (a n : N) | EvApAfter (a : N) | EvApRaftDone (a : N)     (* ap.apply.before / after, ap.raftdone.after *)
+| EvApBefore (a n sn : N) | EvApAfter (a : N) | EvApRaftDone (a : N)     (* ap.apply.before / after, ap.raftdone.after *)
 | EvApTriggerBefore (a s : N) | EvApTriggerAfter (a s : N)          (* ap.trigger.before / after *)
 | EvCkFlush                                      (* ck.cacheflush.after *)
 | EvCkSaveBefore | EvCkSaveAfter | EvCkPurgeBefore | EvCkPurgeAfter (* ck.save.*, ck.purge.* *)
@@ -358,7 +382,15 @@ Inductive event :=
 | EvRcChosen (i : N) | EvRcNone                  (* rc.snap.chosen / rc.snap.none *)
 | EvRsRemoved (i : N) | EvRsCopied (i : N) | EvRcRestored (i : N)   (* rs.remove.after, rs.copy.after, rc.restore.after *)
 | EvRsMarkerGone                                 (* not logged: restoreFromPath removed its marker file *)
-| EvRcReplay (n last commit : N).                (* rc.replay.after *)
+| EvRcReplay (n last commit : N)                 (* rc.replay.after *)
+(* incoming snapshot (a follower behind the leader's compacted log) *)
+| EvFsMark (i : N) | EvFsCopy (i : N) | EvFsComplete (i : N) | EvFsLocalOk (i : N)
+                                                 (* fs.mark.after, fs.copy.after, fs.complete.after, fs.local.ok: prepareSnapshotForStore *)
+| EvAsPrepared (i : N) | EvAsRaftDone (i : N) | EvAsRestored (i : N)   (* as.prepare.after, as.raftdone.after, as.restore.after *)
+| EvRdSaveSnapBefore (i : N) | EvRdSnapFile (i : N) | EvRdSaveSnapAfter (i : N)
+                                                 (* rd.savesnap.before, ps.snapfile.after (raft loop), rd.savesnap.after *)
+| EvRdApplySnapBefore (i : N) | EvRdApplySnapAfter (i : N) | EvRdReleaseAfter (i : N).
+                                                 (* rd.applysnap.before / after, rd.release.after *)
 
 (* reject reasons (reported by the acceptor) *)
 Definition R_PC : N := 100.         (* the event is not the next sub-step of its program *)
@@ -383,13 +415,19 @@ Definition ready_records (r : ready) : list rec :=
    in the WAL) and covers the committed entries, and in a process life entries are not saved before a hard
    state is (a replica first learns or wins a term) *)
 Definition ready_ok (s : state) (r : ready) : bool :=
-  let last' := if 0 <? r_n r then r_last r else rs_last s in
+  let last' := if 0 <? r_snap r then r_snap r else if 0 <? r_n r then r_last r else rs_last s in
   let commit' := if r_hs r then r_commit r else hcommit s in
   (if 0 <? r_n r then (r_first r =? rs_last s + 1) && (r_last r + 1 =? r_first r + r_n r) && (wstate s || r_hs r) else true)
   && (if 0 <? r_cn r then (r_cfirst r =? published s + 1) && (r_clast r + 1 =? r_cfirst r + r_cn r)
                           && (r_clast r <=? last') && (r_clast r <=? commit')
       else true)
-  && (if r_hs r then (hcommit s <=? r_commit r) && (last_commit (all_recs (segs s)) <=? r_commit r) && (r_commit r <=? last') else true).
+  && (if r_hs r then (hcommit s <=? r_commit r) && (last_commit (all_recs (segs s)) <=? r_commit r) && (r_commit r <=? last') else true)
+  (* an incoming snapshot is ahead of the whole local log and of everything applied or being snapshotted here; its
+     Ready carries the new commit index and nothing else *)
+  && (if 0 <? r_snap r
+      then (r_n r =? 0) && (r_cn r =? 0) && r_hs r && (r_commit r =? r_snap r) && (rs_last s <? r_snap r)
+           && (published s <? r_snap r) && (last_commit (all_recs (segs s)) <? r_snap r)
+      else true).
 
 (* wal.ReleaseLockTo(i) on the locked segments ls (positions from nrel on): keep from the segment just
    before the first one whose name index is >= i (or only the last one) *)
@@ -429,6 +467,27 @@ Definition reset_volatile (s : state) : state :=
           CkIdle false None (acked s) (proposed s).
 
 (* wal.Save: entries and hard state are encoded into the tail segment (still buffered) *)
+(* ghost: the last not yet valid incoming marker of i becomes valid (its hard state is being written behind it) *)
+Fixpoint validate_recs (i : N) (rs : list rec) : list rec * bool :=
+  match rs with
+  | [] => ([], false)
+  | r :: t =>
+    let (t', done) := validate_recs i t in
+    if done then (r :: t', true)
+    else match r with
+         | RSnapIn false h j => if j =? i then (RSnapIn true h j :: t', true) else (r :: t', false)
+         | _ => (r :: t', false)
+         end
+  end.
+Fixpoint validate_segs (i : N) (ss : list seg) : list seg :=
+  (* the record sits in the tail segment: no segment is cut between an incoming snapshot's record and its hard state *)
+  match ss with
+  | [] => []
+  | [sg] => [mkSeg (sfirst sg) (fst (validate_recs i (srecs sg)))]
+  | sg :: t => sg :: validate_segs i t
+  end.
+Definition validated (i : N) (ss : list seg) : list seg := validate_segs i ss.
+
 Definition save_records (s : state) (r : ready) : state :=
   let rs := ready_records r in
   let n := length rs in
@@ -439,13 +498,28 @@ Definition save_records (s : state) (r : ready) : state :=
 
 (* the crash images of a state (process death): j <= unflushed buffered records never reached the file;
    or, when a Save is between its two events, the buffered records and [extra] of its own did *)
+(* the Ready whose incoming snapshot has its WAL record written while the hard state that makes it valid is not known
+   to be in the file yet *)
+Definition pending (s : state) : option ready :=
+  match rdp s with
+  | RdSnapSaved r | RdSaving r _ _ | RdCutting r _ _ | RdBegun r _ _ => if 0 <? r_snap r then Some r else None
+  | _ => None
+  end.
+
+(* ghost: in a crash image the pending incoming marker counts as valid exactly when its hard state reached the file *)
+Definition norm_image (s : state) (ss : list seg) : list seg :=
+  match pending s with
+  | Some r => if r_snap r <=? last_commit (all_recs ss) then validated (r_snap r) ss else ss
+  | None => ss
+  end.
+
 Definition image (s : state) (j extra : nat) : option (list seg) :=
   match extra with
-  | O => if Nat.leb j (unflushed s) then Some (drop_tail (segs s) j) else None
+  | O => if Nat.leb j (unflushed s) then Some (norm_image s (drop_tail (segs s) j)) else None
   | S _ =>
     match rdp s, j with
     | RdSaving r _ false, O =>
-      if Nat.leb extra (length (ready_records r)) then Some (app_tail (segs s) (firstn extra (ready_records r))) else None
+      if Nat.leb extra (length (ready_records r)) then Some (norm_image s (app_tail (segs s) (firstn extra (ready_records r)))) else None
     | _, _ => None
     end
   end.
@@ -463,7 +537,7 @@ Definition step (c : config) (s : state) (ev : event) : result state :=
       if negb (running s) then Err R_PC
       else if negb (ready_ok s r) then Err R_ENV
       else Ok (s <| set_rdp := RdBegun r false false |> <| set_rdseq := rdseq s + 1 |>
-                 <| set_proposed := N.max (proposed s) (if 0 <? r_n r then r_last r else 0) |>)
+                 <| set_proposed := N.max (proposed s) (if 0 <? r_snap r then r_snap r else if 0 <? r_n r then r_last r else 0) |>)
     | _ => Err R_PC
     end
   | EvRdSaveBefore =>
@@ -471,8 +545,10 @@ Definition step (c : config) (s : state) (ev : event) : result state :=
     | RdBegun r false p =>
       (* with overlapping committed entries the save comes before the publication, otherwise after it *)
       let ov := persist_first c && overlap r in
-      if (ov && p) || (negb ov && (0 <? r_cn r) && negb p) then Err R_GUARD
+      if 0 <? r_snap r then Err R_PC      (* persistRaftState saves the snapshot first *)
+      else if (ov && p) || (negb ov && (0 <? r_cn r) && negb p) then Err R_GUARD
       else Ok (s <| set_rdp := RdSaving r p false |>)
+    | RdSnapSaved r => Ok (s <| set_rdp := RdSaving r true false |>)
     | _ => Err R_PC
     end
   | EvCutBefore idx =>
@@ -482,6 +558,8 @@ Definition step (c : config) (s : state) (ev : event) : result state :=
       let s1 := save_records s r in
       (* a Save without entries and without a hard state returns before it could cut *)
       if negb ((0 <? r_n r) || r_hs r) then Err R_GUARD
+      (* not followed: the segment is cut between the record of an incoming snapshot and the hard state that makes it valid *)
+      else if 0 <? r_snap r then Err R_ENV
       else if negb (idx =? last_entry (all_recs (segs s1)) + 1) then Err R_ARG
       else Ok (s1 <| set_unflushed := 0%nat |> <| set_unsynced := if opt_fsync c then unsynced s1 else 0%nat |>
                   <| set_rdp := RdCutting r p idx |>)
@@ -508,22 +586,74 @@ Definition step (c : config) (s : state) (ev : event) : result state :=
       Ok (s2 <| set_rdp := RdBegun r true p |>)
     | _ => Err R_PC
     end
-  | EvRdPublish n lastp =>
+  | EvRdPublish n lastp sn =>
     match rdp s with
     | RdBegun r sv false =>
       if persist_first c && overlap r && negb sv then Err R_GUARD
-      else if negb (n =? r_cn r) || ((0 <? r_cn r) && negb (lastp =? r_clast r)) then Err R_ARG
-      else Ok (s <| set_queue := queue s ++ [mkBatch (r_cfirst r) (r_clast r) (r_cn r)] |>
-                 <| set_published := if 0 <? r_cn r then r_clast r else published s |>
+      else if negb (n =? r_cn r) || ((0 <? r_cn r) && negb (lastp =? r_clast r)) || negb (sn =? r_snap r)
+              || ((0 <? r_snap r) && negb (lastp =? r_snap r)) then Err R_ARG
+      else Ok (s <| set_queue := queue s ++ [mkBatch (r_cfirst r) (r_clast r) (r_cn r) (r_snap r)] |>
+                 <| set_published := if 0 <? r_snap r then r_snap r else if 0 <? r_cn r then r_clast r else published s |>
                  <| set_rdp := RdBegun r sv true |>)
+    | _ => Err R_PC
+    end
+  (* persistRaftState of a Ready with an incoming snapshot: SaveSnap (snap file, then WAL record, flushed), then the
+     hard state; processReady has waited for the apply loop's PrepareSnapshot (the checkpoint is on the local disk) *)
+  | EvRdSaveSnapBefore i =>
+    match rdp s, app s with
+    | RdBegun r false true, ApSnapPrepared j =>
+      if negb (i =? r_snap r) || negb (i =? j) || negb (0 <? i) then Err R_ARG
+      else Ok (s <| set_rdp := RdSnapSaving r false |>)
+    | RdBegun _ false true, _ => Err R_GUARD
+    | _, _ => Err R_PC
+    end
+  | EvRdSnapFile i =>
+    match rdp s with
+    | RdSnapSaving r false =>
+      if negb (i =? r_snap r) then Err R_ARG
+      else Ok (s <| set_snapfiles := i :: removeN i (snapfiles s) |> <| set_rdp := RdSnapSaving r true |>)
+    | _ => Err R_PC
+    end
+  | EvRdSaveSnapAfter i =>
+    match rdp s with
+    | RdSnapSaving r true =>
+      if negb (i =? r_snap r) then Err R_ARG
+      else Ok (s <| set_segs := app_tail (segs s) [RSnapIn false (last_entry (all_recs (segs s))) i] |>
+                 <| set_unflushed := 0%nat |> <| set_unsynced := if opt_fsync c then S (unsynced s) else 0%nat |>
+                 <| set_latest := i |> <| set_rdp := RdSnapSaved r |>)
+    | _ => Err R_PC
+    end
+  (* after the save: Sync (the hard state is in the file: the marker is valid from here on), raftDone,
+     raftStorage.ApplySnapshot, Release *)
+  | EvRdApplySnapBefore i =>
+    match rdp s with
+    | RdBegun r true true =>
+      if negb (0 <? r_snap r) then Err R_PC
+      else if negb (i =? r_snap r) then Err R_ARG
+      else Ok (s <| set_segs := validated i (segs s) |> <| set_unflushed := 0%nat |> <| set_unsynced := 0%nat |>
+                 <| set_rd_done := i |> <| set_rdp := RdSnapApply r 0 |>)
+    | _ => Err R_PC
+    end
+  | EvRdApplySnapAfter i =>
+    match rdp s with
+    | RdSnapApply r O => if i =? r_snap r then Ok (s <| set_rdp := RdSnapApply r 1 |>) else Err R_ARG
+    | _ => Err R_PC
+    end
+  | EvRdReleaseAfter i =>
+    match rdp s with
+    | RdSnapApply r 1 =>
+      if i =? r_snap r then Ok (s <| set_nrel := release_to (segs s) (nrel s) i |> <| set_rdp := RdSnapApply r 2 |>) else Err R_ARG
     | _ => Err R_PC
     end
   | EvRdAppendAfter =>
     match rdp s with
     | RdBegun r true p =>
-      if (0 <? r_cn r) && negb p then Err R_GUARD
+      if 0 <? r_snap r then Err R_PC
+      else if (0 <? r_cn r) && negb p then Err R_GUARD
       else Ok (s <| set_rs_last := if 0 <? r_n r then r_last r else rs_last s |> <| set_rd_done := published s |>
                  <| set_rdp := RdAppended r |>)
+    | RdSnapApply r 2 =>
+      Ok (s <| set_rs_last := r_snap r |> <| set_rd_done := published s |> <| set_rdp := RdAppended r |>)
     | _ => Err R_PC
     end
   | EvRdAdvance =>
@@ -532,14 +662,65 @@ Definition step (c : config) (s : state) (ev : event) : result state :=
     | _ => Err R_PC
     end
   (* ----- apply loop: applyCommits ----- *)
-  | EvApBefore a n =>
+  | EvApBefore a n sn =>
     match app s, queue s with
     | ApIdle, b :: q =>
       if negb (running s) then Err R_PC
-      else if negb (a =? applied s) || negb (n =? b_n b) then Err R_ARG
+      else if negb (a =? applied s) || negb (n =? b_n b) || negb (sn =? b_snap b) then Err R_ARG
+      else if 0 <? b_snap b then Ok (s <| set_queue := q |> <| set_app := ApSnapPrepare (b_snap b) |>)
       else Ok (s <| set_queue := q |> <| set_app := ApApplying b |>)
     | _, _ => Err R_PC
     end
+  (* applySnapshot: PrepareSnapshot has the checkpoint of the snapshot on the local disk, the result goes to the raft
+     loop; after raft has persisted the snapshot the engine is replaced by that checkpoint *)
+  | EvAsPrepared i =>
+    match app s, lookup i (ckpts s) with
+    | ApSnapPrepare j, Some _ => if i =? j then Ok (s <| set_app := ApSnapPrepared i |>) else Err R_ARG
+    | ApSnapPrepare _, None => Err R_RECOVER
+    | _, _ => Err R_PC
+    end
+  | EvAsRaftDone i =>
+    match app s with
+    | ApSnapPrepared j =>
+      if negb (i =? j) then Err R_ARG
+      else if i <=? rd_done s then Ok (s <| set_app := ApSnapRestoring i |>) else Err R_GUARD
+    | _ => Err R_PC
+    end
+  | EvAsRestored i =>
+    match app s, engine s with
+    | ApSnapRestoring j, Some _ =>
+      if negb (i =? j) then Err R_ARG
+      (* restoreFromPath ends with purgeOldCheckpoint, like the restore of a restart *)
+      else Ok (s <| set_ckpts := purge_ckpts (eff_keep_ckpt c) (latest s) (ckpts s) |>
+                 <| set_applied := i |> <| set_snapi := i |> <| set_acked := N.max (acked s) i |> <| set_cache := [] |>
+                 <| set_restoring := None |> <| set_app := ApApplying (mkBatch 0 0 0 i) |>)
+    | ApSnapRestoring _, None => Err R_ENGINE
+    | _, _ => Err R_PC
+    end
+  (* prepareSnapshotForStore: the checkpoint of an incoming snapshot is on the local disk already, or it is copied from
+     a replica that has it: the directory is marked incomplete, filled, marked complete. It runs in the transport's
+     receive goroutine (before raft sees the message), in applySnapshot and in startRaft. *)
+  | EvFsLocalOk i =>
+    match lookup i (ckpts s) with Some _ => Ok s | None => Err R_GUARD end
+  | EvFsMark i =>
+    (* MarkCheckpointIncomplete writes a marker file next to the (possibly not yet existing) directory *)
+    match lookup i (ckpts s) with
+    | Some _ => Err R_GUARD      (* a complete checkpoint is never marked incomplete again *)
+    | None => if 0 <? i then Ok s else Err R_ARG
+    end
+  | EvFsCopy i =>
+    (* the directory exists (wholly or partly), still marked incomplete *)
+    match lookup i (ckpts s) with
+    | None => if 0 <? i then Ok (s <| set_ckpts := (i, None) :: remove_ckpt i (ckpts s) |>) else Err R_ARG
+    | Some _ => Err R_GUARD
+    end
+  | EvFsComplete i =>
+    if memN i (map fst (ckpts s))
+    then match lookup i (ckpts s) with
+         | None => Ok (s <| set_ckpts := (i, Some (range 0 i)) :: remove_ckpt i (ckpts s) |>)
+         | Some _ => Err R_GUARD
+         end
+    else Err R_PC
   | EvApAfter a =>
     match app s with
     | ApApplying b =>
@@ -634,12 +815,17 @@ Definition step (c : config) (s : state) (ev : event) : result state :=
     | None => Err R_GUARD
     end
   | EvSnCreated i => sn_step s i SnCkDone SnCreated (fun x => x)
-  | EvSnFile i => sn_step s i SnCreated SnFile (fun x => x <| set_snapfiles := i :: removeN i (snapfiles x) |>)
+  | EvSnFile i =>
+    (* not followed: a local snapshot at exactly the index of an incoming snapshot whose record was left invalid by a crash *)
+    if memN i (unvalidated (all_recs (segs s))) then Err R_ENV
+    else sn_step s i SnCreated SnFile (fun x => x <| set_snapfiles := i :: removeN i (snapfiles x) |>)
   | EvSnMarked i =>
     sn_step s i SnFile SnMarked
       (fun x => x <| set_segs := app_tail (segs x) [RSnap i] |> <| set_unflushed := 0%nat |>
                   <| set_unsynced := if opt_fsync c then S (unsynced x) else 0%nat |>)
-  | EvSnSynced i => sn_step s i SnMarked SnSynced (fun x => x <| set_unflushed := 0%nat |> <| set_unsynced := 0%nat |>)
+  (* the goroutine's Sync() ran at some moment between its two log lines: records another goroutine has buffered before
+     this line may or may not have been flushed by it, so the model does not count on it (SaveSnapshot has flushed) *)
+  | EvSnSynced i => sn_step s i SnMarked SnSynced (fun x => x)
   | EvSnReleased i => sn_step s i SnSynced SnReleased (fun x => x <| set_nrel := release_to (segs x) (nrel x) i |>)
   | EvSnUpdated i => sn_step s i SnReleased SnUpdated (fun x => x <| set_latest := i |>)
   | EvSnCompacted i =>
@@ -736,6 +922,17 @@ Definition step (c : config) (s : state) (ev : event) : result state :=
              end
       | None => Err R_PC
       end
+    | RcRunning =>
+      (* RestoreFromSnapshot of an incoming snapshot *)
+      match app s with
+      | ApSnapRestoring j =>
+        if negb (i =? j) then Err R_ARG
+        else match lookup j (ckpts s) with
+             | Some _ => Ok (s <| set_engine := None |> <| set_restoring := Some j |>)
+             | None => Err R_RECOVER
+             end
+      | _ => Err R_PC
+      end
     | _ => Err R_PC
     end
   | EvRsCopied i =>
@@ -756,11 +953,23 @@ Definition step (c : config) (s : state) (ev : event) : result state :=
              end
       | None => Err R_PC
       end
+    | RcRunning =>
+      match app s, restoring s with
+      | ApSnapRestoring j, Some _ =>
+        if negb (i =? j) then Err R_ARG
+        else match lookup j (ckpts s) with
+             | Some l => Ok (s <| set_engine := Some l |>)
+             | None => Err R_RECOVER
+             end
+      | _, _ => Err R_PC
+      end
     | _ => Err R_PC
     end
   | EvRsMarkerGone =>
     match restoring s, engine s with
-    | Some _, Some _ => if running s then Err R_PC else Ok (s <| set_restoring := None |>)
+    | Some _, Some _ =>
+      if running s && negb (match app s with ApSnapRestoring _ => true | _ => false end) then Err R_PC
+      else Ok (s <| set_restoring := None |>)
     | _, _ => Err R_PC
     end
   | EvRcRestored i =>
@@ -809,6 +1018,32 @@ Fixpoint run (c : config) (s : state) (evs : list event) : result state :=
 Definition listing (s : state) : list N * list N * list N :=
   (map sfirst (segs s), snapfiles s, map fst (ckpts s)).
 
+(* what a replica that is restarted WITHOUT its peers serves: the restart procedure applies the log only up to the
+   commit index it finds in the WAL (a single-replica group commits the rest by itself: [recover]) *)
+Definition recover_isolated (ss : list seg) (snapfiles : list N) (cks : list (N * option (list N))) : result (list N) :=
+  match choose_snapshot ss snapfiles with
+  | None =>
+    match read_all ss 0 with
+    | Err e => Err e
+    | Ok (ents, cm) => Ok (filter (fun e => e <=? cm) ents)
+    end
+  | Some i =>
+    match lookup i cks with
+    | None => Err E_NO_BACKUP
+    | Some l =>
+      match read_all ss i with
+      | Err e => Err e
+      | Ok (ents, cm) => Ok (l ++ filter (fun e => e <=? cm) ents)
+      end
+    end
+  end.
+
+Definition recover_state_isolated (s : state) (j extra : nat) : result (list N) :=
+  match image s j extra with
+  | Some ss => recover_isolated ss (snapfiles s) (ckpts s)
+  | None => Err R_ARG
+  end.
+
 Definition recover_state (s : state) (j extra : nat) : result (list N) :=
   match image s j extra with
   | Some ss => recover ss (snapfiles s) (ckpts s)
@@ -822,7 +1057,18 @@ Definition recover_state_powerloss (s : state) (j : nat) : result (list N) :=
 (* persistent mutations a goroutine may have completed without having logged the event yet (at most one each):
    used by the acceptor at the end of an event log to match the directory found after the death *)
 Definition inflight (s : state) : list event :=
-  (match rdp s with RdCutting _ _ idx => [EvCutAfter idx] | _ => [] end)
+  (match rdp s with
+   | RdCutting _ _ idx => [EvCutAfter idx]
+   | RdSnapSaving r false => [EvRdSnapFile (r_snap r)]
+   | RdSnapSaving r true => [EvRdSaveSnapAfter (r_snap r)]
+   | RdBegun r true true => if 0 <? r_snap r then [EvRdApplySnapBefore (r_snap r)] else []
+   | _ => []
+   end)
+  ++ (match app s, restoring s, engine s with
+      | ApSnapRestoring i, None, Some _ => if running s then [EvRsRemoved i] else []
+      | ApSnapRestoring i, Some _, Some _ => if running s then [EvRsMarkerGone; EvAsRestored i] else []
+      | _, _, _ => []
+      end)
   ++ flat_map (fun q => match snd q with SnCreated => [EvSnFile (fst q)] | SnFile => [EvSnMarked (fst q)] | _ => [] end) (sns s)
   ++ (match ckp s with CkSaving _ _ => [EvCkPartial] | CkPurging _ => [EvCkPurgeOne; EvCkPurgeOne; EvCkPurgeOne; EvCkPurgeOne] | _ => [] end)
   ++ (if pg_wal s then [EvPgAfter 3] else []) ++ (match pg_snap s with Some _ => [EvPgAfter 4] | None => [] end)
@@ -837,9 +1083,19 @@ Definition inflight (s : state) : list event :=
 (* the schedule hypothesis of the theorems (ProofsMain.sched_ok), in the form the acceptor evaluates before every
    event of a real run: when the snap directory purge decides to remove a file, fewer snapshot goroutines are
    between "snap file written" and "WAL marker written" than snap files it keeps *)
+(* the snap file of an incoming snapshot is written and its WAL record is not valid yet *)
+Definition in_window (s : state) : nat :=
+  match rdp s with
+  | RdSnapSaving _ true | RdSnapSaved _ => 1
+  | RdSaving r _ _ | RdCutting r _ _ | RdBegun r true _ => if 0 <? r_snap r then 1 else 0
+  | _ => 0
+  end.
 Definition R_SCHED : N := 106.      (* the schedule hypothesis of the theorems does not hold at this event *)
 Definition sched_holds (c : config) (s : state) (ev : event) : bool :=
   match ev with
-  | EvPgBefore 4 => Nat.ltb (length (filter (fun q => sn_pc_eqb (snd q) SnFile) (sns s))) (eff_keep_snap c)
+  | EvPgBefore 4 => Nat.ltb (length (filter (fun q => sn_pc_eqb (snd q) SnFile) (sns s)) + in_window s) (eff_keep_snap c)
+  (* the checkpoint purge takes the latest snapshot index as its bound: not while that index is the one of an incoming
+     snapshot whose record is not valid yet (UpdateSnapshotState comes before the hard state is saved) *)
+  | EvCkPurgeBefore => Nat.eqb (in_window s) 0
   | _ => true
   end.
